@@ -456,7 +456,9 @@ class SMCSampler(MCMCSampler):
         if beta is None:
             beta = state.get("beta", 0.0)
         iteration = state.get("iteration", 0)
-        self.history = state.get("history", SMCHistory())
+        # Own copy: when resuming from a checkpoint dictionary the run must
+        # not append to the history object stored in that dictionary
+        self.history = copy.deepcopy(state.get("history", SMCHistory()))
         self._min_step = state.get("min_step")
         rng_state = state.get("rng_state")
         if rng_state is not None and hasattr(self.rng, "bit_generator"):
